@@ -353,6 +353,8 @@ def gen_sequences(nleaves, ops, with_parens):
             continue      # `a|b|c` is not covered by the manual (rink rejects it); outside
         if 'mod' in t and ('/' in t or '|' in t):
             continue      # remainder involving a symbolic quotient: z3 does not decide it within the budget; outside (stated)
+        if t.count('^') >= 3:
+            continue      # a ^ 2 ^ 3 ^ 2 = a^512: powers of a symbolic base above 64 are not expanded; outside (stated)
 
         key = ' '.join(t)
         if key not in seen:
@@ -398,7 +400,7 @@ class Precedence(Harness):
                          'evaluator against an independent evaluation under the manual\'s precedence and associativity; operand values symbolic') % (
             len(seqs), nleaves, ', unary minus' if unary else '')
         self.bounds = ['expressions of %d operands; exponents after ^ are the literals 2 / 3; operands dimensionless' % nleaves,
-                       'excluded: chained `a|b|c`, and sequences that combine `mod` with a division']
+                       'excluded: chained `a|b|c`, sequences that combine `mod` with a division, three chained `^`']
         self.expect_classes = ['Result::Ok']
 
     def build(self, ex, I):
